@@ -156,9 +156,14 @@ def run(c):
                 add(name, op, [bb, m], kind if bb == b else kind + "+boundary", m)
             continue
         docs = [d for d in docs if d is not None]
+        # truncation at every position of the longest document, and of every other short document
         d0 = max(docs[:3], key=len)
         for kind, m in mutate.truncations(d0, cap=None if len(d0) < 600 else 400):
             add(name, op, mk(m), kind, m)
+        for d in docs[:8]:
+            if d is not d0 and len(d) < 300:
+                for kind, m in mutate.truncations(d):
+                    add(name, op, mk(m), kind, m)
         add(name, op, mk(b""), "empty", b"")
         for d in docs[:3]:
             for kind, m in mutate.repetitions(d, BOMB_SIZES):
